@@ -15,6 +15,12 @@ func GroupBy(size int, underlying interface{}) (Iterator, error) {
 		return nil, errors.New("size must be greater than zero")
 	}
 	u := reflect.Indirect(reflect.ValueOf(underlying))
+	if u.Kind() == reflect.Array && !u.CanAddr() {
+		// an array passed by value cannot be sliced: work on an addressable copy
+		cp := reflect.New(u.Type()).Elem()
+		cp.Set(u)
+		u = cp
+	}
 
 	group := []reflect.Value{}
 	switch u.Kind() {
